@@ -64,18 +64,25 @@ What is proved
   for the distinctness of live ids across containers):
   `C02.flow_invariant_partial` the invariant holds in every reachable state;
   `C02.flow_safety_partial` at every prefix the i-th response is the reference answer of the i-th request;
-  `C02.flow_quiescent_partial` at quiescence every request has exactly one response and `refAnswers`,
-  when determined, equals the responses; `C02.flow_class_instance` the class is inhabited;
+  `C02.flow_quiescent_partial` at quiescence every request has exactly one response; `C02.flow_class_instance` the class is inhabited;
   `C02.deliver_copies` `Write` copies: the packet a reader's node is handed has the never-used id
   `g.next`, no live tracer entry of that node is keyed by it (packet identity does not survive a hop).
 
-Not proved: `C02.flow_answers_eq_ref_full` (kept as a `def`) in general – beyond class T1 (fan-out: a
-writer feeding several readers; fan-in: a reader fed by several writers; one-to-many / many-to-one
-nodes; actions returning their input packet, several or no packets) the invariant needs rows with
-several cells and per-reader FIFOs mixing several writers; and, inside T1, that the fuel `next + 1` of
-`refAnswers` always suffices: `C02.flow_quiescent_ordered_partial` proves it from the log-order
-invariant `FlowInv.LogOrd` (derived ids are larger than their parent's), whose preservation is open.
-Both are checked on every run of `bin/check C02` instead: `S1` after every step, `F…`/`M1` at the end.
+  `C02.flow_log_ordered_partial` the ghost tree is ordered (so fuel `next + 1` suffices);
+  **`C02.flow_answers_eq_ref_T1`** = `C02.flow_answers_eq_ref_full` with the single extra hypothesis
+  `C02.ClassT1 kinds links es`.
+
+  class → proved end-to-end statement
+  | class | hypothesis added to `flow_answers_eq_ref_full` | theorem |
+  | T1: one-to-one nodes, forest of links, one new out/error packet per action | `C02.ClassT1` | `C02.flow_answers_eq_ref_T1` |
+  | T2 ⊇ T1: one-to-one nodes, ANY forward links (fan-out: a writer feeding several readers, rows joined in link order; fan-in: a reader fed by several writers), one new out/error packet per action | `C02.ClassT2` | `C02.flow_answers_eq_ref_T2` (invariant `FlowG.GI`, lean/Uniflow/Proofs/FlowG1..14.lean; `C02.flow_invariant_T2`, `C02.classT1_sub_T2`, non-vacuity `C02.flow_T2_instance`) |
+
+Not proved: `C02.flow_answers_eq_ref_full` (kept as a `def`) in general – beyond the classes of the table:
+one-to-many / many-to-one nodes and actions returning their input packet, several or no packets. The link
+layer of `FlowG.GI` (`WKG`, `hbOf`, `GI_gReply`, `GI_pushed`) is already general; what is missing is the
+node ghost: `NodeSpec.S`/`Rel` (one-to-one) has to be replaced by the all-kinds abstract tracer state
+(`ATracer.A` with invariant `J`, `C02.node_protocol`).
+It is checked on every run of `bin/check C02` instead: `S1` after every step, `F…`/`M1` at the end.
 The statement requires the source to be linked (a request written to an unlinked source is never
 answered and has no reference answer).
 The node theorems require fresh packet ids for everything an action returns, so an action
@@ -88,6 +95,7 @@ import Uniflow.Proofs.NodeProtocol
 import Uniflow.Props.C01
 import Uniflow.Proofs.Flow
 import Uniflow.Proofs.FlowInv16
+import Uniflow.Proofs.FlowG15
 
 open Uniflow.Tracer Uniflow.Node Uniflow.NodeSpec
 
@@ -713,25 +721,125 @@ theorem C02.deliver_copies (N : Nat) (links : List (Nat × List Tgt)) (es : List
       (Uniflow.FlowInv.FIe_runExt N links hwf es _ hes (Uniflow.FlowInv.FIe_init N links hwf)) m nd hn _ (Nat.le_refl _)⟩
 
 open Uniflow.Flow in
-/-- **Fuel lemma (class T1, conditional on the log order).** If the ghost derivation tree is ordered
-(`FlowInv.LogOrd`: the copies of a write and the packets an action derives have ids larger than their
-parent's and below `next` – true by construction, every new id is `next`; its preservation along
-`runExt` is NOT proved yet) then the fuel `next + 1` of `refAnswers` suffices
-(`FlowInv.refAns_fuel_bound`) and at quiescence the executable reference IS the list of responses:
-the quiescence half of `C02.flow_answers_eq_ref_full` for class T1 in its original form. -/
-theorem C02.flow_quiescent_ordered_partial (N : Nat) (links : List (Nat × List Tgt)) (es : List Ext)
+/-- the ghost derivation tree of every reachable T1 state is ordered (children have larger ids than their
+parent, all below `next`) – the fact that makes the fuel `next + 1` of `refAnswers` sufficient
+(`FlowInv.refAns_fuel_bound`) -/
+theorem C02.flow_log_ordered_partial (N : Nat) (links : List (Nat × List Tgt)) (es : List Ext)
     (hwf : Uniflow.FlowInv.TreeWF N links) (hes : ∀ e ∈ es, Uniflow.FlowInv.ExtT1 e) :
-    quiescent (runExt (initG (List.replicate N .oneToOne) links) es) = true →
     Uniflow.FlowInv.LogOrd (runExt (initG (List.replicate N .oneToOne) links) es).log
-      (runExt (initG (List.replicate N .oneToOne) links) es).next →
-    refAnswers (runExt (initG (List.replicate N .oneToOne) links) es) =
-      some (runExt (initG (List.replicate N .oneToOne) links) es).resp :=
-  Uniflow.FlowInv.FIe_quiescent_eq N links hwf _
+      (runExt (initG (List.replicate N .oneToOne) links) es).next :=
+  Uniflow.FlowInv.FIe_logOrd N links _
     (Uniflow.FlowInv.FIe_runExt N links hwf es _ hes (Uniflow.FlowInv.FIe_init N links hwf))
+
+/-- **Class T1** of workflows and schedules: every node one-to-one, the links a forest rooted at the linked
+source (`FlowInv.TreeWF`), every action returns one new out packet or one new error packet
+(`FlowInv.ExtT1`) -/
+def C02.ClassT1 (kinds : List Kind) (links : List (Nat × List Uniflow.Flow.Tgt)) (es : List Uniflow.Flow.Ext) : Prop :=
+  (∃ N, kinds = List.replicate N .oneToOne ∧ Uniflow.FlowInv.TreeWF N links) ∧ ∀ e ∈ es, Uniflow.FlowInv.ExtT1 e
+
+open Uniflow.Flow in
+/-- **The end-to-end statement for class T1** – literally `C02.flow_answers_eq_ref_full` with the one
+additional hypothesis `C02.ClassT1 kinds links es`: at every prefix the i-th response the source has
+received is the reference answer of its i-th request, and at quiescence `refAnswers g = some g.resp`
+(every request has exactly one response, in request order, equal to the join over its derivation tree). -/
+theorem C02.flow_answers_eq_ref_T1 :
+    ∀ (kinds : List Kind) (links : List (Nat × List Tgt)) (es : List Ext),
+    C02.FlowWF kinds links → Uniflow.Tracer.getL links srcKey ≠ [] → (∀ e ∈ es, e.fresh = true) →
+    C02.ClassT1 kinds links es →
+    let g := runExt (initG kinds links) es
+    (∀ (i : Nat) (a : Ans), g.resp[i]? = some a → ∃ p, g.roots[i]? = some p ∧ ∃ f, refAns g.log f p = some a) ∧
+    (quiescent g = true → anyPanic g = false → refAnswers g = some g.resp) := by
+  intro kinds links es _ _ _ hc
+  obtain ⟨⟨N, hk, hwf⟩, hes⟩ := hc
+  subst hk
+  have hI := Uniflow.FlowInv.FIe_runExt N links hwf es _ hes (Uniflow.FlowInv.FIe_init N links hwf)
+  exact ⟨Uniflow.FlowInv.FIe_safety N links _ hI,
+    fun hq _ => Uniflow.FlowInv.FIe_quiescent_ref_eq N links hwf _ hI hq⟩
 
 /-- non-vacuity of class T1: source → node 0 → node 1 → sink 0 (error ports unlinked) is in the class -/
 theorem C02.flow_class_instance : Uniflow.FlowInv.TreeWF 2 Uniflow.FlowInv.chainLinks :=
   Uniflow.FlowInv.chain_wf
+
+/-! ### class T2: one-to-one nodes, arbitrary forward links (fan-out and fan-in) -/
+
+/-- **Class T2**: every node one-to-one; ANY forward links – a writer may feed several readers (fan-out:
+rows with one cell per reader, joined in link order), a reader may be fed by several writers (fan-in: its
+FIFO mixes writers) – `FlowG.GraphWF` (no reader twice on one writer, node in-port 0, source linked);
+every action returns one new out packet or one new error packet (`FlowInv.ExtT1`). Contains class T1. -/
+def C02.ClassT2 (kinds : List Kind) (links : List (Nat × List Uniflow.Flow.Tgt)) (es : List Uniflow.Flow.Ext) : Prop :=
+  (∃ N, kinds = List.replicate N .oneToOne ∧ Uniflow.FlowG.GraphWF N links) ∧ ∀ e ∈ es, Uniflow.FlowInv.ExtT1 e
+
+open Uniflow.Flow in
+/-- the general-links invariant `FlowG.GI` (per writer: queued answers ++ pending rows with one
+`(copy, answer?)` cell per linked reader; per reader: the FIFO of feeding writers aligned with the held
+requests, of which each writer sees its own sub-sequence) holds in every reachable state of class T2 -/
+theorem C02.flow_invariant_T2 (N : Nat) (links : List (Nat × List Tgt)) (es : List Ext)
+    (hwf : Uniflow.FlowG.GraphWF N links) (hes : ∀ e ∈ es, Uniflow.FlowInv.ExtT1 e) :
+    ∃ ss, Uniflow.FlowG.GI N links ss Uniflow.FlowInv.D0 (runExt (initG (List.replicate N .oneToOne) links) es) :=
+  Uniflow.FlowG.GIe_runExt N links hwf es _ hes (Uniflow.FlowG.GIe_init N links hwf)
+
+open Uniflow.Flow in
+/-- **The end-to-end statement for class T2** (one-to-one nodes, fan-out and fan-in) – literally
+`C02.flow_answers_eq_ref_full` with the one additional hypothesis `C02.ClassT2 kinds links es`: at every
+prefix the i-th response the source has received is the reference answer of its i-th request, and at
+quiescence `refAnswers g = some g.resp`. -/
+theorem C02.flow_answers_eq_ref_T2 :
+    ∀ (kinds : List Kind) (links : List (Nat × List Tgt)) (es : List Ext),
+    C02.FlowWF kinds links → Uniflow.Tracer.getL links srcKey ≠ [] → (∀ e ∈ es, e.fresh = true) →
+    C02.ClassT2 kinds links es →
+    let g := runExt (initG kinds links) es
+    (∀ (i : Nat) (a : Ans), g.resp[i]? = some a → ∃ p, g.roots[i]? = some p ∧ ∃ f, refAns g.log f p = some a) ∧
+    (quiescent g = true → anyPanic g = false → refAnswers g = some g.resp) := by
+  intro kinds links es _ _ _ hc
+  obtain ⟨⟨N, hk, hwf⟩, hes⟩ := hc
+  subst hk
+  have hI := Uniflow.FlowG.GIe_runExt N links hwf es _ hes (Uniflow.FlowG.GIe_init N links hwf)
+  exact ⟨Uniflow.FlowG.GIe_safety N links _ hI,
+    fun hq _ => Uniflow.FlowG.GIe_quiescent_ref_eq N links hwf _ hI hq⟩
+
+/-- class T1 is contained in class T2 (a forest is a graph without duplicate readers on a writer) -/
+theorem C02.classT1_sub_T2 (kinds : List Kind) (links : List (Nat × List Uniflow.Flow.Tgt)) (es : List Uniflow.Flow.Ext)
+    (h : C02.ClassT1 kinds links es) : C02.ClassT2 kinds links es := by
+  obtain ⟨⟨N, hk, hwf⟩, hes⟩ := h
+  refine ⟨⟨N, hk, ?_⟩, hes⟩
+  refine ⟨hwf.small, ?_, hwf.tnode, hwf.src, hwf.keys, hwf.fwd⟩
+  intro key
+  have := hwf.single key
+  cases hl : Uniflow.Tracer.getL links key with
+  | nil => simp
+  | cons t ts =>
+    rw [hl] at this
+    cases ts with
+    | nil => simp
+    | cons _ _ => simp at this
+
+open Uniflow.Flow in
+/-- a schedule on the fan-out/fan-in diamond `FlowG.diamond1Links` (node 0's out port feeds nodes 1 and 2,
+both feed node 3's in-port): one request, every action transforms, the sink answers `11` then `12` -/
+def C02.diamond1Sched : List Ext :=
+  [.send (.atom 5), .release 0 (.out (.atom 6)), .release 1 (.out (.atom 7)), .release 2 (.out (.atom 8)),
+   .release 3 (.out (.atom 9)), .sinkAnswer 0 (some (.pay (.atom 11))), .release 3 (.out (.atom 10)),
+   .sinkAnswer 0 (some (.pay (.atom 12)))]
+
+open Uniflow.Flow in
+/-- **non-vacuity of class T2**: the diamond with a fan-out writer and a fan-in reader is in the class, the
+schedule above is a class schedule, it reaches quiescence without panic, and the one response is the join
+`[11, 12]` of the answers to the two copies node 0's writer handed out (link order) = `refAnswers`. -/
+theorem C02.flow_T2_instance :
+    C02.ClassT2 (List.replicate 4 .oneToOne) Uniflow.FlowG.diamond1Links C02.diamond1Sched ∧
+    quiescent (runExt (initG (List.replicate 4 .oneToOne) Uniflow.FlowG.diamond1Links) C02.diamond1Sched) = true ∧
+    anyPanic (runExt (initG (List.replicate 4 .oneToOne) Uniflow.FlowG.diamond1Links) C02.diamond1Sched) = false ∧
+    (match refAnswers (runExt (initG (List.replicate 4 .oneToOne) Uniflow.FlowG.diamond1Links) C02.diamond1Sched),
+           (runExt (initG (List.replicate 4 .oneToOne) Uniflow.FlowG.diamond1Links) C02.diamond1Sched).resp with
+     | some [.pay (.slice [.atom 11, .atom 12])], [.pay (.slice [.atom 11, .atom 12])] => true
+     | _, _ => false) = true := by
+  refine ⟨⟨⟨4, rfl, Uniflow.FlowG.diamond1_wf⟩, ?_⟩, ?_, ?_, ?_⟩
+  · intro e he
+    simp only [C02.diamond1Sched, List.mem_cons, List.mem_nil_iff, or_false] at he
+    rcases he with h | h | h | h | h | h | h | h <;> subst h <;> trivial
+  · rfl
+  · rfl
+  · rfl
 
 /-! ### the pinned tree -/
 
